@@ -24,7 +24,7 @@ TABLE = [
     (r"^(SealedState::apply_block|UnsealedState::seal|melmint::preseal_melmint|melmint::process_pegging)\|panic\|", "inv", "assert!(pools ≥ 2): create_builtins runs first in every seal (C16.R1/R2) and pools are never deleted (C16.R3)"),
     (r"^SealedState::apply_tip_906_for_next_state\|assert\|Overflow\(Add\)\|CoinMapping::coin_count", "assume", "a covenant's coin count stays below 2^64"),
     (r"^SealedState::apply_tip_906_for_next_state\|assert\|Overflow\(Sub\)\|phi\(", "inv", "progress counter starts at tree.count() and is decremented once per iterated entry of the same tree"),
-    (r"^SealedState::apply_tip_906_for_next_state\|unwrap\|expect\|stdcode::deserialize\(elem\(Tree::iter", "inv", "before TIP-906 the coin tree holds only CoinDataHeight entries: count entries are written only when tip_906 (C20.R1)"),
+    (r"^SealedState::apply_tip_906_for_next_state\|unwrap\|expect\|stdcode::deserialize\(elem\(Tree::iter", "inv", "before TIP-906 the coin tree holds only CoinDataHeight entries: count entries are written only when the flag handed to insert_coin is set (C20.R1) and that flag is tip_906() of the state at every call site (C20.R3)"),
     # (removed with repair e9bdbb6, D20) the voting-power sums saturate; a plain `.sum()` / `+` over syms_staked is an unlisted site again: SYM can be minted by faucets on every network but mainnet
     (r"^SealedState::header(::c0)?\|unwrap\|unwrap\|SmtMapping::get\((\^inner|\$1\.0)\.history", "inv", "next_unsealed inserts the header of height h−1 before a state of height h exists (C07.R2)"),
     (r"^SealedState::next_unsealed\|extern\|<melstructs::BlockHeight as std::ops::AddAssign>::add_assign", "assume", "height < u64::MAX (bounded horizon)"),
@@ -383,7 +383,7 @@ def shared(ctx):
     core.import_rules(ctx, [c15.r1_selection_atoms], "X15")
     core.import_rules(ctx, [c16.r1_builtins_first, c16.r2_create_builtins, c16.r3_no_deletion], "X16")
     core.import_rules(ctx, [c18.r1_gate_chain], "X18")
-    core.import_rules(ctx, [c20.r1_protocol, c20.r2_confinement, c20.r4_activation], "X20")
+    core.import_rules(ctx, [c20.r1_protocol, c20.r2_confinement, c20.r3_flag_provenance, c20.r4_activation], "X20")
 
 
 RULES = [r1_inventory, r2_recursion, r3_loops, shared]
